@@ -41,7 +41,7 @@ SYNTH = [
      ["C=CC=CC.C=CC", "CC(=C)C=C.C=CC(=O)OC", "C=CC=C.C=C"]),
     ("[CH2:1]=[CH2:2].[CH2:3]=[CH2:4]>>[CH2:1]=[CH2:3].[CH2:2]=[CH2:4]", ["CC=C.C=CCC", "C=C.C=CC"]),
     ("[CH3:1][C:2](=[O:3])[OH:4].[CH3:5][OH:6]>>[CH3:1][C:2](=[O:3])[O:6][CH3:5].[OH2:4]", ["CC(=O)O.OCCO", "OC(=O)CC(=O)O.CO"]),
-]
+] + RC.SYNTH_PRUNE[6:]
 
 
 def exec_one(sub, tpl, invert, strategy, flags, bypass=False):
@@ -79,6 +79,7 @@ def check_case(ctx, tpl_rsmi, tpl_kind, sub, d, flags, wit, tag, origin):
         return
     if base["n_pruned"] < base["n_raw"]:
         ctx.count("cases_with_pruning_active")
+    RC.pruned_without_symmetry(ctx, base, wit)
     S0 = base["std"]
     nvar = 2 if ctx.quick else 4
 
@@ -126,6 +127,40 @@ def check_case(ctx, tpl_rsmi, tpl_kind, sub, d, flags, wit, tag, origin):
             ctx.violation("variant-exception", {**wit, "variant_substrate": s2}, f"rewritten substrate raises: {o['error']}")
             continue
         differ("substrate-writing", o, s2, tpl_rsmi)
+    # embedding cap: with a user-set embed_threshold the answer (complete, or empty because the cap was exceeded) must not
+    # depend on how the substrate is written either
+    if base["n_raw"] >= 2 and ("." in sub or len(sub) > 2):
+        c0 = exec_one(sub, tpl_of(tpl_rsmi), invert, "comp", flags)
+        n_comp = c0.get("n_raw", 0) if "error" not in c0 else 0
+        cands = sorted({base["n_raw"] - 1, base["n_raw"], max(1, base["n_raw"] // 2), n_comp - 1, n_comp // 2} - {0, -1})
+        picks_t = cands if origin == "synthetic" else [rng.choice(cands)]
+    else:
+        picks_t = []
+    for thr in picks_t:
+        fl_t = {**flags, "embed_threshold": thr}
+        for strategy in ("all", "comp", "bt"):
+            t0 = exec_one(sub, tpl_of(tpl_rsmi), invert, strategy, fl_t)
+            if "error" in t0:
+                continue
+            for _ in range(2):
+                s2 = corpus.rewrite_side(sub, rng)
+                if not s2:
+                    continue
+                t1 = exec_one(s2, tpl_of(tpl_rsmi), invert, strategy, fl_t)
+                if "error" in t1:
+                    continue
+                ctx.count("relation/threshold_rewrite")
+                if t0["std"] and not t1["std"] or t1["std"] and not t0["std"]:
+                    ctx.count("threshold_cases_cap_hit_on_one_side")
+                if not t0["std"]:
+                    ctx.count("threshold_cases_empty")
+                if t1["std"] != t0["std"]:
+                    finding = classify(ctx, sub, tpl_of(tpl_rsmi), s2, tpl_of(tpl_rsmi), invert, strategy, fl_t)
+                    ctx.violation("depends-on-substrate-writing-under-cap", {**wit, "relation": "threshold", "embed_threshold": thr, "strategy": strategy,
+                                                                              "variant_substrate": s2, "n": [len(t0["std"]), len(t1["std"])]},
+                                  f"with embed_threshold={thr} ({strategy}) the result set changes when the substrate is rewritten: {len(t0['std'])} vs {len(t1['std'])} reactions",
+                                  finding=finding)
+                    break
     # strategy lattice
     comp = exec_one(sub, tpl_of(tpl_rsmi), invert, "comp", flags)
     bt = exec_one(sub, tpl_of(tpl_rsmi), invert, "bt", flags)
